@@ -79,6 +79,25 @@ IsCall(c) ==
         c = C(api, <<p>>, <<>>, eps, cl, 0, 0, FALSE)
   \/ \E p \in PathsA, x \in 0..2, y \in 0..2 : c = C("PointInPolygon", <<p>>, <<>>, x, y, 0, 0, FALSE)
   \/ \E rx \in {-4, 0, 2, 4, 400}, ry \in {-4, 0, 4}, st \in {-1, 0, 2, 3, 9} : c = C("Ellipse64", <<>>, <<>>, rx, ry, st, 0, FALSE)
+  \* ---- the rest of the exported surface: floating-point variants, single-path wrappers, object APIs ----
+  \/ \E p \in MinkOperands, d \in {0, 1, -1, 4, -4, 12, -12}, jt \in 0..4, et \in 0..5 :
+        c = C("InflatePathsD.full", <<p>>, <<>>, d, jt, et, 2, FALSE)
+  \* ClipperOffset object: n4 = flags (1 preserveCollinear, 2 reverseSolution, 4 constant delta through SetDeltaCallback,
+  \* 8 two groups + Execute twice)
+  \/ \E p \in MinkOperands, d \in {1, -1, 4, -4, 12}, jt \in 0..3, et \in 0..4, fl \in {0, 3, 4, 7, 8, 12} :
+        c = C("ClipperOffset", <<p>>, <<>>, d, jt, et, fl, FALSE)
+  \/ \E api \in {"RectClipPathsD.full", "RectClipLinesPathsD.full", "RectClipPathD", "RectClipLinesPathD", "RectClipPath64", "RectClipLinesPath64"},
+         p \in PathsB, r \in Rects :
+        c = C(api, <<p>>, << << <<r[1], r[2]>>, <<r[3], r[4]>> >> >>, 0, 0, 0, 2, FALSE)
+  \/ \E api \in {"MinkowskiSumD.full", "MinkowskiDiffD.full"}, p \in MinkOperands, q \in MinkOperands, cl \in {0, 1} :
+        c = C(api, <<p>>, <<q>>, cl, 0, 0, 2, FALSE)
+  \* floating-point engine through ExecuteOC and through the AddPathsWithScaleFunc / ExecuteWithScaleFunc pair; PolyTree
+  \* accessors (Count, Level, IsHole, ToString, Clear) on the result of a tree operation
+  \/ \E api \in {"EngineDOC", "EngineDSF", "PolyTreeAPI64", "PolyTreeAPID"}, p \in Long, cl \in Clips, ct \in 0..5, fr \in 0..4 :
+        c = C(api, <<p>>, cl, ct, fr, 0, 2, FALSE)
+  \/ \E api \in {"AreaD", "TrimCollinearD.full", "SimplifyPathsD", "PathDHelpers"}, p \in PathsA, f \in {0, 1}, big \in BOOLEAN :
+        c = C(api, <<p>>, <<>>, f, 0, 0, 2, big)
+  \/ \E x \in {-1, 0, 2}, y \in {-1, 0, 2}, r \in Rects : c = C("PointRectMethods", <<>>, << << <<r[1], r[2]>>, <<r[3], r[4]>> >> >>, x, y, 0, 0, FALSE)
 
 VARIABLE call
 CInit == IsCall(call)
